@@ -33,3 +33,25 @@ Definition n_skipped {F} (l : list (rd F)) : nat := length (filter skipped l).
 (** [add] leaves the stack unchanged whenever it raises *)
 Definition transactional {state F} (add : state -> F -> state * option err) : Prop :=
   forall st f e, snd (add st f) = Some e -> fst (add st f) = st.
+
+(** one more warning, same result *)
+Definition bump_warn {A} (n : nat) (r : res (A * nat)) : res (A * nat) :=
+  match r with Ok (a, w) => Ok (a, (n + w)%nat) | Err e => Err e end.
+
+Section Drop.
+  Context {F : Type} (p : F -> bool).
+
+  (** the path list without the image files whose payload fails [p] *)
+  Definition keep_rd (r : rd F) : bool :=
+    match r with Fault _ => true | Data attrs f _ => negb (is_image attrs) || p f end.
+  Definition drop_files (l : list (rd F)) : list (rd F) := filter keep_rd l.
+
+  (** along the additions of one group: every file failing [p] is refused when its turn comes *)
+  Fixpoint refused_along {state} (add : state -> F -> state * option err) (st : state) (g : list F) : Prop :=
+    match g with
+    | [] => True
+    | f :: g' =>
+        if p f then refused_along add (fst (add st f)) g'
+        else (exists e, snd (add st f) = Some e) /\ refused_along add st g'
+    end.
+End Drop.
